@@ -384,6 +384,9 @@ func enumKinds() []exitKind {
 		{name: "go-fwd", exit: exitSpec{Kind: "go", Name: "8"}, target: &layer{Cell: "tagbody.stmt", T1: "4", T2: "8"}},
 		{name: "go-back", exit: exitSpec{Kind: "go", Name: "4", Guard: "if", Nth: 1}, target: &layer{Cell: "tagbody.stmt", T1: "4", T2: "8"}},
 	}
+	ks = append(ks,
+		exitKind{name: "go-fwd-sym", exit: exitSpec{Kind: "go", Name: "tb"}, target: &layer{Cell: "tagbody.stmt", T1: "ta", T2: "tb"}},
+		exitKind{name: "go-back-sym", exit: exitSpec{Kind: "go", Name: "ta", Guard: "when", Nth: 1}, target: &layer{Cell: "tagbody.stmt", T1: "ta", T2: "tb"}})
 	for s := 0; s < 4; s++ {
 		ks = append(ks,
 			exitKind{name: fmt.Sprintf("error%d", s), exit: exitSpec{Kind: "error", Src: s}},
@@ -639,7 +642,7 @@ func randomProgram(r *rand.Rand, clean bool) string {
 	case "go":
 		back := r.IntN(3) == 0
 		t1, t2 := fmt.Sprint(20+r.IntN(3)), fmt.Sprint(30+r.IntN(3))
-		if !clean && r.IntN(2) == 0 {
+		if r.IntN(2) == 0 { // symbol tags (a finding until 2dd5996; the avoid set decides)
 			t1, t2 = "ta", "tb"
 		}
 		if back && !(g.clean && avoid["exit=go to=tagbody.back"]) {
